@@ -57,6 +57,14 @@ class IOCBIPrimitive(UDSScanner):
         self.config: IOCBIPrimitiveConfig = config
 
     async def main(self) -> None:
+        if self.config.session != 0x01:
+            session_resp = await self.ecu.set_session(self.config.session)
+            if isinstance(session_resp, NegativeResponse):
+                logger.critical(
+                    f"Could not change to session: {g_repr(self.config.session)}: {session_resp}"
+                )
+                sys.exit(1)
+
         try:
             await self.ecu.check_and_set_session(self.config.session)
         except Exception as e:
